@@ -350,6 +350,12 @@ func (h *harness) shipped(t *testing.T) {
 					map[string]any{"file": path, "stack": res.Panic, "stages": res.Stages})
 			}
 			okStages := 0
+			pipeOK := map[string]bool{}
+			for _, s := range res.Stages {
+				if s.Stage == "pipeline-new" && s.OK {
+					pipeOK[s.Block] = true
+				}
+			}
 			for _, s := range res.Stages {
 				if s.OK {
 					okStages++
@@ -357,6 +363,12 @@ func (h *harness) shipped(t *testing.T) {
 					continue
 				}
 				if s.Env {
+					// An endpoint that could not listen (no free port, ...) is still decided
+					// when the pipeline of the same block was validated directly.
+					if s.Stage == "init-endpoint" && pipeOK[s.Block] {
+						st.count["shipped_endpoint_init_env_failure_but_pipeline_validated"]++
+						continue
+					}
 					c.Inconclusive(fmt.Sprintf("%s: stage %s of %s failed for an environmental reason: %s", name, s.Stage, s.Block, s.Err))
 					continue
 				}
